@@ -417,12 +417,12 @@ theorem branch_atlas : ∃ cc sc ciC ciS, (branchOf .atlas).build = .byFlag cc s
     ciS.str = [.lit t!"const ", .hole t!"self.type", .lit t!" *"] ∧ ciS.depthType = 1 ∧ ciS.depthElem = 0 :=
   ⟨_, _, _, _, rfl, rfl, rfl, by decide, by decide, by decide, by decide, by decide, by decide, by decide⟩
 
-theorem branch_cmsAod : ∃ cc ciC, (branchOf .cmsAod).build = .always cc ∧
+theorem branch_cmsAod : ∃ cc ciC, (branchOf .cmsAod).build = .alwaysPtr cc t!"element_pointer" ∧
     classStage cc = .ok ciC ∧ (branchOf .cmsAod).librariesKey = none ∧
     ciC.str = [.lit t!"edm::Handle<", .hole t!"self.type", .lit t!">"] ∧ ciC.depthType = 1 ∧ ciC.depthElem = 0 :=
   ⟨_, _, rfl, rfl, by decide, by decide, by decide, by decide⟩
 
-theorem branch_cmsMiniaod : ∃ cc ciC, (branchOf .cmsMiniaod).build = .always cc ∧
+theorem branch_cmsMiniaod : ∃ cc ciC, (branchOf .cmsMiniaod).build = .alwaysPtr cc t!"element_pointer" ∧
     classStage cc = .ok ciC ∧ (branchOf .cmsMiniaod).librariesKey = none ∧
     ciC.str = [.lit t!"Handle<", .hole t!"self.type", .lit t!">"] ∧ ciC.depthType = 1 ∧ ciC.depthElem = 0 ∧
     ciC.tokenType = some [.lit t!"edm::EDGetTokenT<", .hole t!"self.type", .lit t!">"] :=
@@ -493,7 +493,7 @@ theorem keys_of_ok {b : Backend} {md : Md} (h1 : firstUnexpected (branchOf b).wh
 /-- what an accepted declaration is, stage by stage (any backend) -/
 theorem validateWith_sound (b : Backend) (md : Md) (c : CollSpec) (hty : md.mdType = b.mdType)
     (h : validateWith (branchOf b) md = .ok c) :
-    ValidMd b md ∧ c.backend = b.execName ∧ ClassOk b c ∧ (KindDefault b md → declOf c = intended b md) := by
+    ValidMd b md ∧ c.backend = b.execName ∧ ClassOk b c ∧ declOf c = intended b md := by
   obtain ⟨h1, h2, ci, ct, et, libs, name, incs, h3, h4, h5, h6, rfl⟩ := validateWith_ok h
   have hkeys := keys_of_ok h1
   obtain ⟨hcc, hflag⟩ := (flagStage_ok_iff _ _ (branch_flagCheck b)).1 h2
@@ -543,9 +543,7 @@ theorem validateWith_sound (b : Backend) (md : Md) (c : CollSpec) (hty : md.mdTy
         · simp [mkSpec, CollSpec.tyStr, f1, render_three, expectedTy, declOf]
         · intro hh; cases hh
         · simp [mkSpec, f2]
-        · intro hkd
-          simp only [KindDefault] at hkd
-          have hnoep : md.get? t!"element_pointer" = none :=
+        · have hnoep : md.get? t!"element_pointer" = none :=
             get?_none_of_not_whitelisted hkeys (by decide)
           simp [declOf, intended, mkSpec, getStr_of hname, getStrs_of hincs, getStr_of g1, getStr_of g2, hfl, hlibs, f3,
             hnoep, Backend.elemPtrDefault]
@@ -569,8 +567,7 @@ theorem validateWith_sound (b : Backend) (md : Md) (c : CollSpec) (hty : md.mdTy
         · simp [mkSpec, CollSpec.tyStr, f4, render_three, expectedTy, declOf]
         · intro hh; cases hh
         · simp [mkSpec, f5]
-        · intro _
-          simp [declOf, intended, mkSpec, getStr_of hname, getStrs_of hincs, getStr_of g1, hfl, hlibs]
+        · simp [declOf, intended, mkSpec, getStr_of hname, getStrs_of hincs, getStr_of g1, hfl, hlibs]
   | cmsAod =>
     obtain ⟨cc, ciC, hb, hcC, hlk, f1, f2, f3⟩ := branch_cmsAod
     unfold containerStage at h3
@@ -580,10 +577,15 @@ theorem validateWith_sound (b : Backend) (md : Md) (c : CollSpec) (hty : md.mdTy
     rw [hlk] at h4
     simp only [Except.ok.injEq] at h4
     subst h4
-    obtain ⟨ci', ct', et', e, g1, g2, g3⟩ := collStage_ok h3
+    cases hcs : collStage md cc with
+    | error e0 => rw [hcs] at h3; simp at h3
+    | ok r0 =>
+    obtain ⟨ci', ct', et', e, g1, g2, g3⟩ := collStage_ok hcs
+    subst e
+    rw [hcs] at h3
     rw [hcC] at g3
-    simp only [Prod.mk.injEq, Except.ok.injEq] at e g3
-    obtain ⟨rfl, rfl, rfl⟩ := e
+    simp only [Prod.mk.injEq, Except.ok.injEq] at h3 g3
+    obtain ⟨rfl, rfl, rfl⟩ := h3
     subst g3
     have hfl : md.flag = true := hflag.2 (has_of_get? g2)
     have hnoll : md.get? t!"link_libraries" = none := get?_none_of_not_whitelisted hkeys (by decide)
@@ -599,17 +601,14 @@ theorem validateWith_sound (b : Backend) (md : Md) (c : CollSpec) (hty : md.mdTy
     · simp [mkSpec, CollSpec.tyStr, f1, render_three, expectedTy, declOf]
     · intro hh; cases hh
     · simp [mkSpec, f2]
-    · intro hkd
-      simp only [KindDefault] at hkd
-      cases hep : md.get? t!"element_pointer" with
+    · cases hep : md.get? t!"element_pointer" with
       | none =>
-        simp [declOf, intended, mkSpec, getStr_of hname, getStrs_of hincs, getStr_of g1, getStr_of g2, hfl, f3,
+        simp [declOf, intended, mkSpec, getStr_of hname, getStrs_of hincs, getStr_of g1, getStr_of g2, hfl,
           hep, getStrs_none hnoll, Backend.elemPtrDefault]
       | some v =>
-        rw [hep] at hkd
-        simp only [Backend.elemPtrDefault] at hkd
-        simp [declOf, intended, mkSpec, getStr_of hname, getStrs_of hincs, getStr_of g1, getStr_of g2, hfl, f3,
-          hep, getStrs_none hnoll, hkd]
+        cases hv : v.truthy <;>
+        simp [declOf, intended, mkSpec, getStr_of hname, getStrs_of hincs, getStr_of g1, getStr_of g2, hfl,
+          hep, getStrs_none hnoll, hv]
   | cmsMiniaod =>
     obtain ⟨cc, ciC, hb, hcC, hlk, f1, f2, f3, f4⟩ := branch_cmsMiniaod
     unfold containerStage at h3
@@ -619,10 +618,15 @@ theorem validateWith_sound (b : Backend) (md : Md) (c : CollSpec) (hty : md.mdTy
     rw [hlk] at h4
     simp only [Except.ok.injEq] at h4
     subst h4
-    obtain ⟨ci', ct', et', e, g1, g2, g3⟩ := collStage_ok h3
+    cases hcs : collStage md cc with
+    | error e0 => rw [hcs] at h3; simp at h3
+    | ok r0 =>
+    obtain ⟨ci', ct', et', e, g1, g2, g3⟩ := collStage_ok hcs
+    subst e
+    rw [hcs] at h3
     rw [hcC] at g3
-    simp only [Prod.mk.injEq, Except.ok.injEq] at e g3
-    obtain ⟨rfl, rfl, rfl⟩ := e
+    simp only [Prod.mk.injEq, Except.ok.injEq] at h3 g3
+    obtain ⟨rfl, rfl, rfl⟩ := h3
     subst g3
     have hfl : md.flag = true := hflag.2 (has_of_get? g2)
     have hnoll : md.get? t!"link_libraries" = none := get?_none_of_not_whitelisted hkeys (by decide)
@@ -638,17 +642,14 @@ theorem validateWith_sound (b : Backend) (md : Md) (c : CollSpec) (hty : md.mdTy
     · simp [mkSpec, CollSpec.tyStr, f1, render_three, expectedTy, declOf]
     · intro _; simp [mkSpec, CollSpec.tokenTypeStr, f4, render_three]
     · simp [mkSpec, f2]
-    · intro hkd
-      simp only [KindDefault] at hkd
-      cases hep : md.get? t!"element_pointer" with
+    · cases hep : md.get? t!"element_pointer" with
       | none =>
-        simp [declOf, intended, mkSpec, getStr_of hname, getStrs_of hincs, getStr_of g1, getStr_of g2, hfl, f3,
+        simp [declOf, intended, mkSpec, getStr_of hname, getStrs_of hincs, getStr_of g1, getStr_of g2, hfl,
           hep, getStrs_none hnoll, Backend.elemPtrDefault]
       | some v =>
-        rw [hep] at hkd
-        simp only [Backend.elemPtrDefault] at hkd
-        simp [declOf, intended, mkSpec, getStr_of hname, getStrs_of hincs, getStr_of g1, getStr_of g2, hfl, f3,
-          hep, getStrs_none hnoll, hkd]
+        cases hv : v.truthy <;>
+        simp [declOf, intended, mkSpec, getStr_of hname, getStrs_of hincs, getStr_of g1, getStr_of g2, hfl,
+          hep, getStrs_none hnoll, hv]
 
 
 theorem str_of_has {md : Md} {k : Text} (hh : md.has k = true) (ht : md.has k = true → isStr (md.get? k) = true) :
@@ -721,8 +722,9 @@ theorem validateWith_complete (b : Backend) (md : Md) (hv : ValidMd b md) (hwt :
       · exact h
       · rw [hcc] at h; exact absurd h (by decide)
     obtain ⟨et, het⟩ := str_of_has (hflag.1 hfl) w4
-    have h3 : containerStage (branchOf .cmsAod) md = .ok (ciC, ct, some et) := by
-      unfold containerStage; rw [hb]; exact collStage_of hct het hcC
+    have h3 : ∃ ci, containerStage (branchOf .cmsAod) md = .ok (ci, ct, some et) := by
+      unfold containerStage; rw [hb]; simp only [collStage_of hct het hcC]; exact ⟨_, rfl⟩
+    obtain ⟨ci, h3⟩ := h3
     have h4 : libsStage (branchOf .cmsAod) md = .ok [] := by unfold libsStage; rw [hlk]
     exact ⟨_, validateWith_of h1 h2 h3 h4 h5 h6⟩
   | cmsMiniaod =>
@@ -733,8 +735,9 @@ theorem validateWith_complete (b : Backend) (md : Md) (hv : ValidMd b md) (hwt :
       · exact h
       · rw [hcc] at h; exact absurd h (by decide)
     obtain ⟨et, het⟩ := str_of_has (hflag.1 hfl) w4
-    have h3 : containerStage (branchOf .cmsMiniaod) md = .ok (ciC, ct, some et) := by
-      unfold containerStage; rw [hb]; exact collStage_of hct het hcC
+    have h3 : ∃ ci, containerStage (branchOf .cmsMiniaod) md = .ok (ci, ct, some et) := by
+      unfold containerStage; rw [hb]; simp only [collStage_of hct het hcC]; exact ⟨_, rfl⟩
+    obtain ⟨ci, h3⟩ := h3
     have h4 : libsStage (branchOf .cmsMiniaod) md = .ok [] := by unfold libsStage; rw [hlk]
     exact ⟨_, validateWith_of h1 h2 h3 h4 h5 h6⟩
 
@@ -811,12 +814,12 @@ theorem declare_ok {b : Backend} {mds : List Md} {table : List CollSpec} (h : de
 the property's table -/
 theorem declare_sound {b : Backend} {mds : List Md} {table : List CollSpec} (h : declare b mds = .ok table) :
     (∀ md ∈ mds, ValidMd b md) ∧ (∀ c ∈ table, ClassOk b c) ∧
-    ((∀ md ∈ mds, KindDefault b md) → table.map declOf = builtinDecls b ++ mds.map (intended b)) := by
+    table.map declOf = builtinDecls b ++ mds.map (intended b) := by
   obtain ⟨cs, rfl, hf, hb⟩ := declare_ok h
   have key : ∀ (mds : List Md) (cs : List CollSpec), Rel₂ (fun md c => validate md = .ok c) mds cs →
       (∀ c ∈ cs, c.backend = b.execName) →
       (∀ md ∈ mds, ValidMd b md) ∧ (∀ c ∈ cs, ClassOk b c) ∧
-      ((∀ md ∈ mds, KindDefault b md) → cs.map declOf = mds.map (intended b)) := by
+      cs.map declOf = mds.map (intended b) := by
     intro mds cs hf
     induction hf with
     | nil => intro _; simp
@@ -830,17 +833,15 @@ theorem declare_sound {b : Backend} {mds : List Md} {table : List CollSpec} (h :
       refine ⟨?_, ?_, ?_⟩
       · intro m hm; rcases List.mem_cons.1 hm with rfl | hm; exact v1; exact i1 m hm
       · intro x hx; rcases List.mem_cons.1 hx with rfl | hx; exact v3; exact i2 x hx
-      · intro hk
-        simp only [List.map_cons]
-        rw [v4 (hk md (by simp)), i3 (fun m hm => hk m (by simp [hm]))]
+      · simp only [List.map_cons]
+        rw [v4, i3]
   obtain ⟨k1, k2, k3⟩ := key mds cs hf hb
   refine ⟨k1, ?_, ?_⟩
   · intro c hc
     rcases List.mem_append.1 hc with hc | hc
     · exact builtins_classOk b c hc
     · exact k2 c hc
-  · intro hk
-    rw [List.map_append, builtins_declOf, k3 hk]
+  · rw [List.map_append, builtins_declOf, k3]
 
 theorem declare_complete {b : Backend} {mds : List Md} (hv : ∀ md ∈ mds, ValidMd b md) (hwt : ∀ md ∈ mds, md.WellTyped)
     (hcms : ∀ md ∈ mds, CmsIsCollection b md) : ∃ table, declare b mds = .ok table := by
@@ -1326,7 +1327,6 @@ theorem stripSuffix?_append (r s : Text) : stripSuffix? s (r ++ s) = some r := b
 /-- everything `runJob` does, related to the property -/
 theorem runJob_spec (b : Backend) (mds : List Md) (uses : List Use) (c0 gap : Nat) (ks : List Consumer)
     (hwt : ∀ md ∈ mds, md.WellTyped)
-    (hkind : ∀ md ∈ mds, md.mdType = b.mdType → KindDefault b md)
     (hcms : ∀ md ∈ mds, md.mdType = b.mdType → CmsIsCollection b md)
     (hclean : ∀ p ∈ resolveAll b mds uses, TypeClean p.1) (hnames : ∀ u ∈ uses, NameClean u.name) :
     RunSpec b mds uses (outcomeOf (runJob b mds uses c0 gap) ks) := by
@@ -1342,7 +1342,7 @@ theorem runJob_spec (b : Backend) (mds : List Md) (uses : List Use) (c0 gap : Na
         obtain ⟨cvs, n⟩ := p
         simp only [hd, hf, Except.ok.injEq] at hr
         obtain ⟨d1, d2, d3⟩ := declare_sound hd
-        have ht := d3 (fun md hm => hkind md hm (d1 md hm).1)
+        have ht := d3
         obtain ⟨u1, u2⟩ := findAll_ok hf
         have u2' : cvs = cvsOf b.coder table uses c0 := u2
         subst u2'
@@ -1409,7 +1409,7 @@ theorem runJob_spec (b : Backend) (mds : List Md) (uses : List Use) (c0 gap : Na
     intro hacc
     obtain ⟨table, hd⟩ := declare_complete hacc.1 hwt (fun md hm => hcms md hm (hacc.1 md hm).1)
     obtain ⟨_, _, d3⟩ := declare_sound hd
-    have ht := d3 (fun md hm => hkind md hm (hacc.1 md hm).1)
+    have ht := d3
     have huse : ∀ u ∈ uses, UseOk table u := by
       intro u hu
       refine ⟨(hacc.2 u hu).1, ?_⟩
